@@ -573,6 +573,9 @@ enum Script {
     /// bytes; the next CONNECT with a long will), then a resumed connection that must replay the
     /// retained packets byte for byte.
     ScratchBehindRetained { q0_len: usize, big_will: bool },
+    /// A broker that ignores the client's Receive Maximum: `n` inbound QoS 2 publishes with distinct
+    /// identifiers and no PUBREL (the client's table holds 8), then the PUBRELs.
+    InboundQos2Overflow { n: u16 },
 }
 
 fn scripted() -> Vec<Script> {
@@ -596,6 +599,9 @@ fn scripted() -> Vec<Script> {
     }
     v.push(Script::EightInRelease { rm8: true });
     v.push(Script::EightInRelease { rm8: false });
+    for n in [7u16, 8, 9, 10] {
+        v.push(Script::InboundQos2Overflow { n });
+    }
     for (q0_len, big_will) in [(130, false), (0, true), (200, true), (20000, false), (120, false), (300, false), (17000, true)] {
         v.push(Script::ScratchBehindRetained { q0_len, big_will });
     }
@@ -731,6 +737,21 @@ fn run_script(rng: super::Rng, script: &Script) -> (String, Drv) {
             }
             settle(&mut d);
             format!("script=eight-in-release rm8={}", *rm8 as u8)
+        }
+        Script::InboundQos2Overflow { n } => {
+            d.connect(&ConnSpec::plain());
+            for id in 1..=*n {
+                let p = wire::publish(b"in", Some(100 + id), 2, false, false, &[], &[0x30 + id as u8]);
+                d.send_raw("publish2", &p);
+                d.x("poll");
+                d.go();
+                settle(&mut d);
+            }
+            for id in 1..=*n {
+                d.send_raw("pubrel", &wire::ack(0x62, 100 + id, None, None));
+            }
+            settle(&mut d);
+            format!("script=inbound-qos2-overflow n={n}")
         }
         Script::ScratchBehindRetained { q0_len, big_will } => {
             d.connect(&ConnSpec::plain());
